@@ -92,6 +92,8 @@ FIXED = [
     ("C02", "850fde3", "`for(var i=0;i<3000;i++){ try { throw 1 } finally { continue } }` grew the operand stack by one slot per iteration until MemoryLimitError: the exception waiting to be rethrown was abandoned on the stack (found by obligation O13)"),
     ("C09", "7133da3", "`/(?=\\d)x/.test('ax')` was true and `(?=(a*)*b)` spun until the backtrack stack overflowed: the lookahead and lookbehind sub-matchers skipped every opcode they did not know (54 findings, one per opcode and sub-matcher)"),
     ("C10", "7133da3", "the lookaround sub-matchers ignored the zero-advance guards of * and +"),
+    ("C13", "40ef38e", "`var a={b:1}; ((a).b)` was a syntax error: after an inner ')' the parser did not continue with member access, calls or ++/--"),
+    ("C12", "35564e0", "a RegExp created by one eval and used by a later eval on the same context was judged against the first eval's clock: spurious TimeLimitError"),
     ("C04", "5541b57", "`a.reduce(function(acc,x){a.pop();return acc+x})` (and reduceRight) let a raw IndexError escape: the loop bound was computed before the callbacks ran"),
 ]
 
